@@ -70,6 +70,7 @@ THEOREMS = [
     'C17_lattice_no_opt_rejected_any',
     'C17_arrives_options',
     'C17_arrives_options_more',
+    'C17_arrives_options_arrays',
     'C17_surplus_surface_params_exact',
     'C17_fill_array_trailing_numbers',
     'C17_facet_skipped_cells_unchecked',
